@@ -22,9 +22,61 @@ class Verdict:
     model: dict = field(default_factory=dict)
 
 
+_SYMS: dict[int, frozenset] = {}
+
+
+def symbols_of(e) -> frozenset:
+    """names of the uninterpreted functions / constants of a formula (cached per AST id)"""
+    k = e.get_id()
+    got = _SYMS.get(k)
+    if got is not None:
+        return got
+    out, seen, todo = set(), set(), [e]
+    while todo:
+        x = todo.pop()
+        i = x.get_id()
+        if i in seen:
+            continue
+        seen.add(i)
+        if z3.is_quantifier(x):
+            todo.append(x.body())
+            continue
+        if z3.is_app(x):
+            d = x.decl()
+            if d.kind() == z3.Z3_OP_UNINTERPRETED or d.kind() == z3.Z3_OP_RECURSIVE:
+                out.add(d.name())
+            todo.extend(x.children())
+    got = frozenset(out)
+    _SYMS[k] = got
+    return got
+
+
+def relevant_axioms(axioms, formulas):
+    """axioms connected to the formulas through shared uninterpreted symbols (closure).  The omitted ones speak
+    about disjoint symbols only, so neither `unsat` nor `sat` of the query depends on them."""
+    syms = set()
+    for f in formulas:
+        syms |= symbols_of(f)
+    rest = [(a, symbols_of(a)) for a in axioms]
+    out = []
+    changed = True
+    while changed and rest:
+        changed = False
+        keep = []
+        for a, sy in rest:
+            if not sy or sy & syms:
+                out.append(a)
+                syms |= sy
+                changed = changed or bool(sy)
+            else:
+                keep.append((a, sy))
+        rest = keep
+    return out
+
+
 def to_smt2(axioms, pc, goal) -> str:
     s = z3.Solver()
-    for a in axioms:
+    for a in relevant_axioms(axioms, list(pc) + [goal]):
         s.add(a)
     for c in pc:
         s.add(c)
@@ -136,7 +188,7 @@ def model_of(world, ob, timeout_ms=20000):
         watchdog = threading.Timer(timeout_ms / 1000 + 5, z3.main_ctx().interrupt)
         watchdog.daemon = True
         watchdog.start()
-        for a in list(world.axioms) + list(ob.axioms):
+        for a in relevant_axioms(list(world.axioms) + list(ob.axioms), list(ob.pc) + [ob.goal]):
             s.add(a)
         for c in ob.pc:
             s.add(c)
